@@ -17,6 +17,9 @@ func c05Files() []*sFile {
 	return []*sFile{
 		{Key: "a1", Name: "a", Data: "AAAABBBB", Cuts: []int64{0, 4, 8}},
 		{Key: "b1", Name: "b", Prev: "a", Data: "CCCC", Cuts: []int64{0, 4}}, // held until a is delivered
+		// two unrelated single-part files: delivered at different times they age out of the cache together
+		{Key: "c1", Name: "c", Data: "cccc", Cuts: []int64{0, 4}},
+		{Key: "d1", Name: "d", Data: "dddd", Cuts: []int64{0, 4}},
 	}
 }
 
@@ -29,7 +32,11 @@ func c05Alphabet(files []*sFile, thorough bool) func(hist []sAction) []sAction {
 		var out []sAction
 		for _, f := range files {
 			for p := 0; p < len(f.Cuts)-1; p++ {
-				if histCount(hist, "recv", f.Key, p) < maxRecv {
+				limit := maxRecv
+				if f.Key == "c1" {
+					limit = 1 // c only has to be delivered before d
+				}
+				if histCount(hist, "recv", f.Key, p) < limit {
 					out = append(out, sAction{Op: "recv", F: f.Key, P: p})
 				}
 			}
@@ -134,5 +141,5 @@ func TestC05(t *testing.T) {
 	}
 	files := c05Files()
 	runSimCheck(t, "C05", "stage retransmission histories (E-HIST)", files, c05Alphabet(files, vh.Thorough()), c05Check, depth,
-		fmt.Sprintf("all histories up to length %d over: file a in 2 parts, file b (1 part) announcing a as predecessor; every part received up to 2 (thorough: 3) times at any point (before completion, while held, after delivery, after the in-memory record aged out), one 'did you receive' query, one poll, orderly restart, clock +10 s / +25 h, cache ageing (cleanCache called directly), CleanNow; the harness consumes the final directory after every step", depth))
+		fmt.Sprintf("all histories up to length %d over: file a in 2 parts, file b (1 part) announcing a as predecessor, two unrelated single-part files c and d; every part received up to 2 (thorough: 3) times at any point (before completion, while held, after delivery, after the in-memory record aged out), one 'did you receive' query, one poll, orderly restart, clock +10 s / +25 h, cache ageing (cleanCache called directly), CleanNow; the harness consumes the final directory after every step", depth))
 }
